@@ -112,8 +112,12 @@ class Node(Config):
     du: Param[Dict[str, Union[int, Dict[str, int]]]] = {}
     dli: Param[List[int]] = [1, 2]
     ddi: Param[Dict[str, int]] = {"a": 1}
+    nl: Param[List[List[Config]]] = []
+    dlc: Param[Dict[str, List[Config]]] = {}
+    ldc: Param[List[Dict[str, Config]]] = []
     metasub: Meta[Optional[Config]]
     metalist: Meta[List[Config]] = []
+    metanl: Meta[List[List[Config]]] = []
     gen: Meta[Path] = field(default_factory=PathGenerator("gen.txt"))
     gen2: Annotated[Path, pathgenerator("out.bin")]
 
@@ -272,8 +276,12 @@ SPEC = {
             "du": ("p", ("dict", ("union", "int", ("dict", "int"))), {}, False),
             "dli": ("p", ("list", "int"), [1, 2], False),
             "ddi": ("p", ("dict", "int"), {"a": 1}, False),
+            "nl": ("p", ("list", ("list", CFG)), [], False),
+            "dlc": ("p", ("dict", ("list", CFG)), {}, False),
+            "ldc": ("p", ("list", ("dict", CFG)), [], False),
             "metasub": ("ign", ("opt", CFG), None, False),
             "metalist": ("ign", ("list", CFG), [], False),
+            "metanl": ("ign", ("list", ("list", CFG)), [], False),
             "gen": ("gen", "path", "gen.txt", False),
             "gen2": ("gen", "path", "out.bin", False),
         },
